@@ -32,6 +32,23 @@ func Canon(v any, skip ...string) string {
 
 type canoner struct {
 	skip map[string]bool
+	// maskIdx: "Type.Field" names rendered as "_"
+	maskIdx    map[string]bool
+	sortSlices bool
+}
+
+// CanonMasked is Canon with the Raft indexes of the named struct types masked.
+func CanonMasked(v any, maskIdxOfTypes map[string]bool) string {
+	return CanonOpt(v, maskIdxOfTypes, false)
+}
+
+// CanonOpt: sortSlices renders every slice (other than []byte) as a sorted multiset, for
+// results that are assembled by ranging over Go maps and promise no order.
+func CanonOpt(v any, maskIdxOfTypes map[string]bool, sortSlices bool) string {
+	var sb strings.Builder
+	c := canoner{skip: map[string]bool{}, maskIdx: maskIdxOfTypes, sortSlices: sortSlices}
+	c.enc(&sb, reflect.ValueOf(v), 0)
+	return sb.String()
 }
 
 var (
@@ -120,6 +137,17 @@ func (c *canoner) enc(sb *strings.Builder, v reflect.Value, depth int) {
 			sb.WriteString("\"")
 			return
 		}
+		if c.sortSlices && v.Kind() == reflect.Slice {
+			parts := make([]string, v.Len())
+			for i := range parts {
+				var pb strings.Builder
+				c.enc(&pb, v.Index(i), depth+1)
+				parts[i] = pb.String()
+			}
+			sort.Strings(parts)
+			sb.WriteString("{|" + strings.Join(parts, ",") + "|}")
+			return
+		}
 		sb.WriteString("[")
 		for i := 0; i < v.Len(); i++ {
 			if i > 0 {
@@ -169,7 +197,7 @@ func (c *canoner) enc(sb *strings.Builder, v reflect.Value, depth int) {
 			}
 			first = false
 			sb.WriteString(f.Name + ":")
-			if c.skip[f.Name] {
+			if c.skip[f.Name] || c.maskIdx[t.Name()+"."+f.Name] {
 				sb.WriteString("_")
 				continue
 			}
